@@ -165,13 +165,35 @@ func (c *compiler) compileTryStatement(v *ast.TryStatement, needResult bool) {
 				c.emitPattern(pattern, func(target, init compiledExpr) {
 					c.emitPatternLexicalAssign(target, init)
 				}, false)
+				// The Block of the clause has a scope of its own inside the scope of the parameter: the expressions of the binding
+				// pattern (which have run by now) do not see its lexical declarations. Redeclaring a parameter name is an early error.
+				paramScope := c.scope
+				checkName := func(name unistring.String, offset int) {
+					if _, exists := paramScope.boundNames[name]; exists {
+						c.throwSyntaxErrorf(offset, "Identifier '%s' has already been declared", name)
+					}
+				}
+				for _, decl := range funcs {
+					checkName(decl.Function.Name.Name, int(decl.Function.Name.Idx1())-1)
+				}
+				for _, st := range list {
+					if lex, ok := st.(*ast.LexicalDeclaration); ok {
+						for _, d := range lex.List {
+							c.createBindings(d.Target, checkName)
+						}
+					} else if cls, ok := st.(*ast.ClassDeclaration); ok {
+						checkName(cls.Class.Name.Name, int(cls.Class.Name.Idx)-1)
+					}
+				}
+				c.compileBlockStatement(v.Catch.Body, bodyNeedResult)
+			} else {
+				for _, decl := range funcs {
+					c.scope.bindNameLexical(decl.Function.Name.Name, true, int(decl.Function.Name.Idx1())-1)
+				}
+				c.compileLexicalDeclarations(list, true)
+				c.compileFunctions(funcs)
+				c.compileStatements(list, bodyNeedResult)
 			}
-			for _, decl := range funcs {
-				c.scope.bindNameLexical(decl.Function.Name.Name, true, int(decl.Function.Name.Idx1())-1)
-			}
-			c.compileLexicalDeclarations(list, true)
-			c.compileFunctions(funcs)
-			c.compileStatements(list, bodyNeedResult)
 			c.leaveScopeBlock(enter)
 			if c.scope.dynLookup || c.scope.bindings[0].inStash {
 				c.p.code[lbl+catchOffset] = &enterCatchBlock{
